@@ -188,6 +188,10 @@ def run(chk, rng, replay=None):
     n_cases = {"quick": 1500, "thorough": 20000}[chk.tier]
     tols = [1e-8, float(np.sqrt(np.finfo(float).eps)), 0.5, 0.0]
     cases = []
+    if replay is not None and "desc" in replay:
+        import runlevel
+        runlevel.run_check(chk, rng, replay, "C03", MODULES, "general", 120, 2000, {"C03", "C02"}, proof=(ok, info))
+        return
     if replay is not None:
         cases = [case_from_json(replay["case"])]
     else:
